@@ -149,6 +149,9 @@ def parseEv (ws : List String) : Option (Ev String String) :=
     | ["get", w] => (kvS [w] "k").map .get
     | ["has", w] => (kvS [w] "k").map .has
     | ["del", w] => (kvS [w] "k").map .del
+    -- two overlapping `Del`s of one key: removal is ONE section (`clearKey_is_one_critical_section`), so every
+    -- schedule is one removal followed by a removal that finds nothing (`clearKey_idem`)
+    | ["del2", w] => (kvS [w] "k").map .del
     | ["wstep", w] => (kvInt [w] "d").map .wstep
     | _ => none
 
